@@ -491,6 +491,21 @@ theorem ts_kind (epoch : Rat) (sd : SigDef) (last last' : Rat) (line : List Char
 
 /-! ### Non-vacuity of Part 2: numbers, dates, stamps -/
 
+/-- every number a data point carries is within the range of float64 (beyond it `strconv.ParseFloat` reports a range
+error and the line yields no point) -/
+theorem parsed_in_float_range (v : List Char) (x : Rat) (h : parseFloat v = some x) : overflows x = false := by
+  unfold parseFloat at h
+  cases hr : parseFloatRaw v with
+  | none => rw [hr] at h; cases h
+  | some q =>
+    rw [hr] at h
+    simp only [Option.bind_some, inRange] at h
+    split at h
+    · cases h
+    · rename_i hno
+      injection h with h; subst h
+      simpa using hno
+
 example : parseFloat "12.5".toList = some (25/2) := by decide +kernel
 example : parseFloat "-3".toList = some (-3) := by decide +kernel
 example : parseFloat "+.5".toList = some (1/2) := by decide +kernel
